@@ -3,6 +3,7 @@ package main
 import (
 	"context"
 	"fmt"
+	"runtime/debug"
 	"strings"
 	"testing"
 	"testing/synctest"
@@ -53,7 +54,7 @@ func execute(sc *Scenario, keepLog bool) (res *Result) {
 	synctest.Test(&testing.T{}, func(*testing.T) {
 		defer func() {
 			if x := recover(); x != nil {
-				res.Infra = fmt.Sprintf("panic on the scheduler goroutine: %v", x)
+				res.Infra = fmt.Sprintf("panic on the scheduler goroutine: %v\n%s", x, debug.Stack())
 			}
 		}()
 		switch {
